@@ -224,16 +224,16 @@ def terminalEvs : Res → List Ev
 /-- the static conditions of `wfProg`, as the proofs use them -/
 theorem wfProg_parts {pr : CProg} (h : wfProg pr = true) :
     pr.params.Nodup ∧ wfS pr.params pr.body = true ∧ youLevel pr.body = true ∧ noFall pr.body = true ∧
-    (pr.funs.map (·.name)).Nodup ∧
+    escFree false pr.body = true ∧ (pr.funs.map (·.name)).Nodup ∧
     ∀ fd ∈ pr.funs, fd.params.Nodup ∧ wfS fd.params fd.body = true ∧ plain fd.body = true := by
   simp only [wfProg, Bool.and_eq_true, decide_eq_true_eq, List.all_eq_true] at h
-  obtain ⟨⟨⟨⟨⟨⟨h1, h2⟩, h3⟩, h4⟩, _⟩, h5⟩, h6⟩ := h
-  exact ⟨h1, h2, h3, h4, h5, fun fd hfd => ⟨(h6 fd hfd).1.1.1, (h6 fd hfd).1.1.2, (h6 fd hfd).1.2⟩⟩
+  obtain ⟨⟨⟨⟨⟨⟨⟨h1, h2⟩, h3⟩, h4⟩, h4'⟩, _⟩, h5⟩, h6⟩ := h
+  exact ⟨h1, h2, h3, h4, h4', h5, fun fd hfd => ⟨(h6 fd hfd).1.1.1, (h6 fd hfd).1.1.2, (h6 fd hfd).1.2⟩⟩
 
 /-- the facts about the function table that `cS_ok` needs, for the program `coreProg` -/
 theorem core_fnsOK (cf : Config) (pr : CProg) (hwf : wfProg pr = true) :
     FnsOK (coreProg cf pr) cf.checked (progLen cf.checked pr) (progFA cf.checked pr) pr.funs := by
-  obtain ⟨_, _, _, _, hnames, hfd⟩ := wfProg_parts hwf
+  obtain ⟨_, _, _, _, _, hnames, hfd⟩ := wfProg_parts hwf
   have hall : PlacedAt (coreProg cf pr) 0 (progCode cf pr) :=
     (placedAt_toArray_append cf.w (progCode cf pr) (stdlibCode cf.w (progLen cf.checked pr)) ⟨#[]⟩).1
   unfold progCode at hall
@@ -296,10 +296,12 @@ theorem core_correct (cf : Config) (args : List Int) (pr : CProg) (hw : 2 ≤ cf
     | returned => trivial
     | defeat => trivial
     | retv v => trivial
+    | brk => trivial
+    | cnt => trivial
   change pkS cf.w (entryOff cf.w pr.params) pr.body ≤ cf.stackWords * cf.w + args.length * cf.w + cf.w at hroom
   change exec (256 ^ cf.w) (8 * cf.w) pr.funs cf.w fuel (cf.stackWords * cf.w + args.length * cf.w + cf.w)
     (entryOff cf.w pr.params) (argEnv (256 ^ cf.w) pr.params args) pr.body = some (env', tr, res) at hex
-  obtain ⟨hnd, hwfb, hyl, hnf, _, _⟩ := wfProg_parts hwf
+  obtain ⟨hnd, hwfb, hyl, hnf, hesc, _, _⟩ := wfProg_parts hwf
   have hinv0 := init_inv cf args pr hw hB hSE hnd hlen
   have h64 := mul_w_lt_pow cf.w hw
   have hM := pow_ge2 cf.w hw
@@ -321,7 +323,7 @@ theorem core_correct (cf : Config) (args : List Int) (pr : CProg) (hw : 2 ≤ cf
     (by show pkS cf.w (entryOff cf.w pr.params) pr.body < 256 ^ cf.w; rw [hF] at hSE; omega)).1
     (by show pkS cf.w (entryOff cf.w pr.params) pr.body ≤ F0 cf args - 5 * cf.w; rw [hF]; omega)
   have hbodyP : PlacedAt (coreProg cf pr) (0 + prologueLen cf.checked)
-      (cS (cxOf (coreProg cf pr) cf.checked (progLen cf.checked pr)) (progFA cf.checked pr)
+      (cS (cxOf (coreProg cf pr) cf.checked (progLen cf.checked pr)) (progFA cf.checked pr) (0, 0)
         (paramGam cf.w (2 * cf.w) pr.params) (0 + prologueLen cf.checked) (entryOff cf.w pr.params) pr.body) := by
     have := hcodeP
     unfold funcCode at this
@@ -331,20 +333,21 @@ theorem core_correct (cf : Config) (args : List Int) (pr : CProg) (hw : 2 ≤ cf
   have hpw : p.w = cf.w := by rw [← hp]; rfl
   generalize hBdef : progLen cf.checked pr = B at *
   have hbodyLen : 0 + prologueLen cf.checked +
-      (cS (cxOf p cf.checked B) (progFA cf.checked pr) (paramGam cf.w (2 * cf.w) pr.params) (0 + prologueLen cf.checked)
+      (cS (cxOf p cf.checked B) (progFA cf.checked pr) (0, 0) (paramGam cf.w (2 * cf.w) pr.params) (0 + prologueLen cf.checked)
         (entryOff cf.w pr.params) pr.body).length = funcLen cf.checked pr.body := by
     rw [cS_len]; show 0 + prologueLen cf.checked + lenS cf.checked pr.body = prologueLen cf.checked + lenS cf.checked pr.body; omega
   have hbody := cS_ok (ck := cf.checked) lib fok fuel (F0 cf args) (cf.stackWords * cf.w + args.length * cf.w + cf.w)
-    (B + off_all_is_win) (by rw [hpw]; simp [off_all_is_win, stdlibLength] at *; omega)
+    (B + off_all_is_win) (by rw [hpw]; simp [off_all_is_win, stdlibLength] at *; omega) (0, 0) ⟨by show 0 < 256 ^ p.w; rw [hpw]; omega, by show 0 < 256 ^ p.w; rw [hpw]; omega⟩
     pr.body (paramGam cf.w (2 * cf.w) pr.params) (argEnv (256 ^ cf.w) pr.params args) (0 + prologueLen cf.checked)
     (entryOff cf.w pr.params)
   rw [hpw] at hbody
   have hnd' : res ≠ .defeat := exec_no_defeat _ _ _ _ _ _ _ _ _ _ _ _ hyl hex
   have hnn : res ≠ .norm := exec_noFall _ _ _ _ _ _ _ _ _ _ _ _ hnf hex
+  have hne := exec_noEsc _ _ _ _ _ _ _ _ _ _ _ _ hesc hex
   -- where the entry function can end: win, or the division_by_zero stub
-  have hsafe : ∀ st', Post p B (B + off_all_is_win) (paramGam cf.w (2 * cf.w) pr.params) env' (F0 cf args)
+  have hsafe : ∀ st', Post p B (B + off_all_is_win) (0, 0) (paramGam cf.w (2 * cf.w) pr.params) env' (F0 cf args)
       (cf.stackWords * cf.w + args.length * cf.w + cf.w) (entryOff cf.w pr.params)
-      (0 + prologueLen cf.checked + (cS (cxOf p cf.checked B) (progFA cf.checked pr) (paramGam cf.w (2 * cf.w) pr.params)
+      (0 + prologueLen cf.checked + (cS (cxOf p cf.checked B) (progFA cf.checked pr) (0, 0) (paramGam cf.w (2 * cf.w) pr.params)
         (0 + prologueLen cf.checked) (entryOff cf.w pr.params) pr.body).length) (initMem cf args pr) res st' →
       ¬ Halts (sphinx p) st' ∧ ∃ mEnd, Reach (sphinx p) st' (terminalEvs res) ⟨tntPc B, mEnd⟩ := by
     intro st' hp'
@@ -357,6 +360,8 @@ theorem core_correct (cf : Config) (args : List Int) (pr : CProg) (hw : 2 ≤ cf
     | div0 => simp only [Post] at hp'; subst hp'; exact ⟨tn.2.2.2.1, m', (error_stub_reach lib m').2.1⟩
     | ovf => simp only [Post] at hp'; subst hp'; exact ⟨tn.2.2.1, m', (error_stub_reach lib m').1⟩
     | defeat => exact absurd rfl hnd'
+    | brk => exact absurd rfl hne.1
+    | cnt => exact absurd rfl hne.2
   obtain ⟨st', r, hpost⟩ := (hbody (initMem cf args pr) env' tr res hbodyP (by omega) hinv0
     (disj_paramGam cf.w pr.params (2 * cf.w) hnd)
     (by rw [map_fst_paramGam]; exact hwfb) hroom (by rw [heo]; omega) hex hfo
@@ -412,16 +417,16 @@ number of loop iterations and calls inside it, the frame pointer, `ap` and all m
 frame pointer are what they were when it was entered -/
 theorem core_frame_restored {p : Prog} {ck : Bool} {B : Nat} {fa : FAddr} {fns : List FDecl}
     (lib : Placed p B) (fok : FnsOK p ck B fa fns) (fuel F D ra : Nat) (hra : ra < 256 ^ p.w)
-    (s : S) (Γ : Gam) (env : Env) (pc o : Nat) (m : Mem) (env' : Env) (tr : List Ev) (res : Res)
-    (hpl : PlacedAt p pc (cS (cxOf p ck B) fa Γ pc o s))
-    (hB : pc + (cS (cxOf p ck B) fa Γ pc o s).length ≤ B)
+    (lp : Nat × Nat) (hlp : lp.1 < 256 ^ p.w ∧ lp.2 < 256 ^ p.w) (s : S) (Γ : Gam) (env : Env) (pc o : Nat) (m : Mem) (env' : Env) (tr : List Ev) (res : Res)
+    (hpl : PlacedAt p pc (cS (cxOf p ck B) fa lp Γ pc o s))
+    (hB : pc + (cS (cxOf p ck B) fa lp Γ pc o s).length ≤ B)
     (hinv : SInv p Γ env m F D o ra) (hd : Disj p.w Γ) (hwf : wfS (Γ.map Prod.fst) s = true)
     (hpk : pkS p.w o s ≤ D) (ho : p.w ≤ o) (hnt : noTry s = true)
     (hex : exec (256 ^ p.w) (8 * p.w) fns p.w fuel D o env s = some (env', tr, res))
     (hres : res = .norm ∨ res = .returned ∨ ∃ v, res = .retv v) :
     ∃ st', Reach (sphinx p) ⟨pc, m⟩ tr st' ∧ Keep p.w m st'.mem F ∧ st'.mem.readLE p.w p.w = F ∧
-      (res = .norm → st'.pc = pc + (cS (cxOf p ck B) fa Γ pc o s).length) ∧ (res ≠ .norm → st'.pc = ra) := by
-  have hc := cS_ok lib fok fuel F D ra hra s Γ env pc o m env' tr res hpl hB hinv hd hwf hpk ho hex
+      (res = .norm → st'.pc = pc + (cS (cxOf p ck B) fa lp Γ pc o s).length) ∧ (res ≠ .norm → st'.pc = ra) := by
+  have hc := cS_ok lib fok fuel F D ra hra lp hlp s Γ env pc o m env' tr res hpl hB hinv hd hwf hpk ho hex
     (by rcases hres with h | h | ⟨v, h⟩ <;> subst h <;> trivial) (Or.inl hnt)
   obtain ⟨st', r, hp⟩ := hc.2 (by rcases hres with h | h | ⟨v, h⟩ <;> subst h <;> simp)
   have hfp := hinv.fr.fp
